@@ -95,7 +95,8 @@ class Run:
             if line not in self.known_printed:
                 self.known_printed.append(line)
             return path
-        self.violations.append((obname, path, reproduced, what))
+        if not any(v[0] == obname and v[3] == what for v in self.violations):
+            self.violations.append((obname, path, reproduced, what))
         return path
 
     def undecide(self, obname, why):
